@@ -258,14 +258,14 @@ pub(crate) fn c01_find_by_line_fast<S: Shape>() {
 /// symbolic fragmentation here: 9 harnesses x 5 GB, no result in 11 minutes.)
 const FRAGS: [(usize, u8); 3] = [(1, 1), (2, 3), (4, 2)];
 
-fn c02_reader_body<S: Shape>(cfg: Cfg) {
+fn c02_reader_body<S: Shape>(cfg: Cfg, frag: usize) {
     let hit = any_hits::<S>();
     let matcher = PlainMatcher::new::<S>(hit);
     let searcher = build_searcher::<S>(&cfg, false);
     let (want, complete) = model_events::<S>(&hit, &cfg);
     let mut delivered_all = false;
-    let mut f = 0;
-    while f < FRAGS.len() {
+    let mut f = frag;
+    while f < frag + 1 {
         let (cap, chunk) = FRAGS[f];
         let mut lb = LineBufferBuilder::new()
             .capacity(cap)
@@ -306,25 +306,38 @@ fn c02_reader_body<S: Shape>(cfg: Cfg) {
     std::mem::forget(searcher);
 }
 
-pub(crate) fn c02_reader_ctx<S: Shape>() {
+fn c02_ctx_cfg() -> Cfg {
     let mut cfg = any_cfg(1);
     cfg.passthru = false;
     cfg.stop_nm = false;
-    c02_reader_body::<S>(cfg)
+    cfg
+}
+
+/// 1-byte capacity, 1-byte reads (a roll and a grow for every byte)
+pub(crate) fn c02_reader_ctx_tiny<S: Shape>() {
+    c02_reader_body::<S>(c02_ctx_cfg(), 0)
+}
+/// capacity 2, 3-byte reads
+pub(crate) fn c02_reader_ctx_mid<S: Shape>() {
+    c02_reader_body::<S>(c02_ctx_cfg(), 1)
+}
+/// capacity 4, 2-byte reads
+pub(crate) fn c02_reader_ctx_wide<S: Shape>() {
+    c02_reader_body::<S>(c02_ctx_cfg(), 2)
 }
 
 pub(crate) fn c02_reader_stop<S: Shape>() {
     let mut cfg = any_cfg(1);
     cfg.passthru = false;
     cfg.stop_nm = true;
-    c02_reader_body::<S>(cfg)
+    c02_reader_body::<S>(cfg, 0)
 }
 
 pub(crate) fn c02_reader_passthru<S: Shape>() {
     let mut cfg = any_cfg(0);
     cfg.passthru = true;
     cfg.stop_nm = false;
-    c02_reader_body::<S>(cfg)
+    c02_reader_body::<S>(cfg, 1)
 }
 
 include!("c13.rs");
